@@ -26,9 +26,16 @@ theorem byte_of_sshift (g : BitVec 64) (k : Nat) (hk : k + 8 ≤ 64) :
   simp only [toByte, BitVec.setWidth_eq, UInt8.toNat_ofBitVec, BitVec.toNat_setWidth, BitVec.toNat_ushiftRight,
     Nat.shiftRight_eq_div_pow]
 
+/-- the same for a logical shift (`byte(uint64(g) >> k)`, an equivalent spelling) -/
+theorem byte_of_ushift (g : BitVec 64) (k : Nat) :
+    (toByte (BitVec.setWidth 8 (g >>> k))).toNat = g.toNat / 2 ^ k % 256 := by
+  simp only [toByte, BitVec.setWidth_eq, UInt8.toNat_ofBitVec, BitVec.toNat_setWidth, BitVec.toNat_ushiftRight,
+    Nat.shiftRight_eq_div_pow]
+
 theorem byte_low (g : BitVec 64) : (toByte (BitVec.setWidth 8 g)).toNat = g.toNat % 256 := by
   simp [toByte]
 
+set_option linter.unusedSimpArgs false in
 /-- `guid.Hex()` = `Model.Guid.hex`, for every 64-bit value. -/
 theorem guidHex_eq (g : BitVec 64) : Nsq.Gen.GuidHexFn.guidHex g = .ret (hex g) := by
   unfold Nsq.Gen.GuidHexFn.guidHex
@@ -38,7 +45,7 @@ theorem guidHex_eq (g : BitVec 64) : Nsq.Gen.GuidHexFn.guidHex g = .ret (hex g) 
   simp only [hexEncode, List.flatMap_cons, List.flatMap_nil, List.append_nil, List.cons_append, List.nil_append,
     byte_of_sshift g 56 (by omega), byte_of_sshift g 48 (by omega), byte_of_sshift g 40 (by omega),
     byte_of_sshift g 32 (by omega), byte_of_sshift g 24 (by omega), byte_of_sshift g 16 (by omega),
-    byte_of_sshift g 8 (by omega), byte_low g, hex, hexBE]
+    byte_of_sshift g 8 (by omega), byte_of_ushift, byte_low g, hex, hexBE]
   have h := g.isLt
   generalize g.toNat = n at h ⊢
   simp only [List.cons.injEq, and_true]
